@@ -1,6 +1,7 @@
 package c06
 
 import (
+	"bytes"
 	"fmt"
 	"math/big"
 	"testing"
@@ -99,9 +100,36 @@ func checkHistory(c histCase, rec *h.Rec) error {
 	var last *signOut // most recent successful signature
 	var lastV *vctx
 	signCalls := 0
+	// memory the library handed out (signatures returned in steps that do not
+	// scribble) next to private copies: no later call may change it
+	type handed struct {
+		step    int
+		ret     []byte
+		r, s    *big.Int
+		sigCopy []byte
+		rc, sc  *big.Int
+	}
+	var out []handed
+	pool := map[string][]byte{} // argument buffers recycled across the steps that scribble
+	stillIntact := func(after string) error {
+		for _, k := range out {
+			if !bytes.Equal(k.ret, k.sigCopy) {
+				return fmt.Errorf("%s: the signature slice returned in step %d changed afterwards: %x -> %x (the library reuses memory it handed out)", after, k.step, k.sigCopy, k.ret)
+			}
+			if k.r != nil && (k.r.Cmp(k.rc) != 0 || k.s.Cmp(k.sc) != 0) {
+				return fmt.Errorf("%s: the integers returned in step %d changed afterwards", after, k.step)
+			}
+		}
+		return nil
+	}
 	for i, op := range c.Ops {
 		rec.Label(opName(op.Op))
-		args := newArgs(op.Args, rec)
+		args := newArgs(op.Args, rec).withPool(pool)
+		if i > 0 {
+			if err := stillIntact(fmt.Sprintf("before step %d", i+1)); err != nil {
+				return err
+			}
+		}
 		step := fmt.Sprintf("step %d/%d (%s) on the key object d=%x built by %s", i+1, len(c.Ops), opName(op.Op), []byte(c.D), ctorNames[c.Ctor])
 		if op.Op >= opVerifyLast {
 			if last == nil {
@@ -159,6 +187,15 @@ func checkHistory(c histCase, rec *h.Rec) error {
 		if o.err != nil {
 			return fmt.Errorf("%s: signing failed on a valid key: %v", step, o.err)
 		}
+		if !args.scribbling() {
+			k := handed{step: i + 1}
+			if sg.ints {
+				k.r, k.s, k.rc, k.sc = o.r, o.s, cpi(o.r), cpi(o.s)
+			} else if id != 8 {
+				k.ret, k.sigCopy = o.sig, cp(o.sig)
+			}
+			out = append(out, k)
+		}
 		if err := o.normalise(sg); err != nil {
 			return fmt.Errorf("%s: %v", step, err)
 		}
@@ -186,6 +223,9 @@ func checkHistory(c histCase, rec *h.Rec) error {
 		}
 		oo := o
 		last, lastV = &oo, v
+	}
+	if err := stillIntact("at the end of the history"); err != nil {
+		return err
 	}
 	rec.NTIf(signCalls >= 2)
 	if signCalls >= 3 {
@@ -281,5 +321,48 @@ func TestC06_History(t *testing.T) {
 			})
 		}
 		return c
+	}, checkHistory)
+}
+
+// TestC06_HistoryReuse: every ordered pair (a, b) of signing entry points on
+// one valid key object, each in three argument disciplines (plain copies;
+// flavours + spare capacity; the same with scribbling): a, b, verify-last, a
+// failing call (id too long), another failing call (no randomness), b again,
+// a again, verify-last, verify-last-mutated. After a successful and after a
+// failed call the object must behave like a fresh one, nothing handed out
+// earlier may change, nothing handed in may be kept.
+func TestC06_HistoryReuse(t *testing.T) {
+	h.Sweep(t, h.P{Name: "history-reuse"}, func(emit func(histCase)) {
+		ds := edgeScalars(gen.Mix(h.Seed, 0x7275))
+		n := 0
+		for a := opSignFirst; a <= opSignLast; a++ {
+			for b := opSignFirst; b <= opSignLast; b++ {
+				for mode := 0; mode < 3; mode++ {
+					n++
+					seed := gen.Mix(h.Seed, uint64(n), 0x7265)
+					ar := func(k uint64) uint64 {
+						switch mode {
+						case 0:
+							return 0
+						case 1:
+							return gen.Mix(seed, k)&^argScribble | argFlavoured
+						}
+						return gen.Mix(seed, k) | argScribble
+					}
+					d := ds[n%len(ds)]
+					emit(histCase{D: ref.Bytes32(d), Ctor: n % 4, Ops: []hop{
+						{Op: a, UIDLen: 16, MsgLen: 33, Seed: seed, Args: ar(1)},
+						{Op: b, UIDLen: 16, MsgLen: 33, Seed: seed + 1, Args: ar(2)}, // same lengths, other bytes: recycled buffers look alike
+						{Op: opVerifyLast, Seed: seed + 2, Args: ar(3)},
+						{Op: opSignLongUID, UIDLen: n % 3, MsgLen: 5, Seed: seed + 3, Args: ar(4)},
+						{Op: opSignNoRand, UIDLen: 1, MsgLen: 5, Seed: seed + 4, Args: ar(5)},
+						{Op: b, UIDLen: 0, MsgLen: 64, Seed: seed + 5, Args: ar(6)},
+						{Op: a, UIDLen: 16, MsgLen: 0, Seed: seed + 6, Args: ar(7)},
+						{Op: opVerifyLast, Seed: seed + 7, Args: ar(8)},
+						{Op: opVerifyMutated, Seed: seed + 8, Args: ar(9)},
+					}})
+				}
+			}
+		}
 	}, checkHistory)
 }
